@@ -211,6 +211,16 @@ pub fn check(ctx: &Ctx) -> i32 {
                 ops.push(Op::EA { data: Bytes::new(audio_frame(*ac, j as u32, 6).0), samples: n });
             }
             judge(&cfg, &ops, (70_000 + idx as u64, k as u64), t);
+            // the same history with a refused encode_audio call (unusable payload) after every
+            // accepted one: a refused call takes no time on the automatic clock
+            let mut with_rejects = vec![];
+            for o in &ops {
+                with_rejects.push(o.clone());
+                if let Op::EA { samples, .. } = o {
+                    with_rejects.push(Op::EA { data: Bytes::new(if ac.is_aac() { vec![0x03] } else { vec![] }), samples: *samples });
+                }
+            }
+            judge(&cfg, &with_rejects, (75_000 + idx as u64, k as u64), t);
         }
     });
     // far from zero: capture clocks that have been running for hours or years. The absolute
@@ -307,7 +317,7 @@ pub fn check(ctx: &Ctx) -> i32 {
         &tally,
         Meta {
             level: "model_checking",
-            rule: format!("every A/V history over: first video decode time {{0, 1/30, 1, 10 s}} x video shape {{no offsets, first frame +2 frames, later frames -1 frame}} x audio start minus first video presentation {{0, 1 tick, 1024/48000, 0.25, 3 s}} x 2-3 video frames x 2-3 audio frames x audio step pattern {{1024/48000, 1024/44100, 0.02, 0, (0, 1024/48000), (0.02, 0), (0.5, 0.02), (0.003, 0.5): pauses and overlaps relative to the packets' coded durations}}, plus runs of 8 and 12 audio frames at the 48 kHz and 44.1 kHz AAC spacings, plus every audio step sequence of 2..{jmax} steps over {{600, 1200, 1800, 3000}} ticks ({n_jitter} sequences x AAC/Opus), plus every standard AAC sample rate (7350 .. 96000 Hz) x 3 sub-sample displacement patterns (0-30 microseconds) x 2 start times x both layouts, plus {n_conv} encode_video/encode_audio histories (every sequence of 2..5 audio frame lengths over Opus {{10, 20, 40, 60 ms}} and AAC {{1024, 2048}}), plus 3 video + 3 audio frames starting 47721 s .. 1e9 s from zero (both sides of 2^32 and 2^33 ticks, audio runs that straddle 2^32 ticks) x plain/reordered video x 5 audio step patterns (two of them 7900 s and 8000 s apart: audio tracks around 2^31 ticks long) x 2 leads x H.264/VP9, also from 0, plus four long histories (66 000 audio frames 1920 ticks apart, 66 000 video frames 3000 ticks apart, both layouts), x {{AAC, Opus}} x both layouts x codecs; executed on the real muxer; per-track presentation timelines rebuilt from stts/ctts (+ edit list if present, empty edits and media_time honoured) and every audio sample's presentation time relative to the first video frame compared with the submitted difference (tolerance 1 tick). Distinct by output bytes."),
+            rule: format!("every A/V history over: first video decode time {{0, 1/30, 1, 10 s}} x video shape {{no offsets, first frame +2 frames, later frames -1 frame}} x audio start minus first video presentation {{0, 1 tick, 1024/48000, 0.25, 3 s}} x 2-3 video frames x 2-3 audio frames x audio step pattern {{1024/48000, 1024/44100, 0.02, 0, (0, 1024/48000), (0.02, 0), (0.5, 0.02), (0.003, 0.5): pauses and overlaps relative to the packets' coded durations}}, plus runs of 8 and 12 audio frames at the 48 kHz and 44.1 kHz AAC spacings, plus every audio step sequence of 2..{jmax} steps over {{600, 1200, 1800, 3000}} ticks ({n_jitter} sequences x AAC/Opus), plus every standard AAC sample rate (7350 .. 96000 Hz) x 3 sub-sample displacement patterns (0-30 microseconds) x 2 start times x both layouts, plus {n_conv} encode_video/encode_audio histories (each also with a refused encode_audio call after every accepted one) (every sequence of 2..5 audio frame lengths over Opus {{10, 20, 40, 60 ms}} and AAC {{1024, 2048}}), plus 3 video + 3 audio frames starting 47721 s .. 1e9 s from zero (both sides of 2^32 and 2^33 ticks, audio runs that straddle 2^32 ticks) x plain/reordered video x 5 audio step patterns (two of them 7900 s and 8000 s apart: audio tracks around 2^31 ticks long) x 2 leads x H.264/VP9, also from 0, plus four long histories (66 000 audio frames 1920 ticks apart, 66 000 video frames 3000 ticks apart, both layouts), x {{AAC, Opus}} x both layouts x codecs; executed on the real muxer; per-track presentation timelines rebuilt from stts/ctts (+ edit list if present, empty edits and media_time honoured) and every audio sample's presentation time relative to the first video frame compared with the submitted difference (tolerance 1 tick). Distinct by output bytes."),
             bound: "2-3 video frames, 2-3 audio frames (8 and 12 for the two constant spacings)".into(),
             exhaustive: true,
             assumptions: vec!["the known finding C09/no-start-offset is matched only when neither track has an edit list and every audio sample is off by exactly the lost start offset; any other deviation is reported as a violation".into()],
